@@ -89,6 +89,14 @@ func padStream(n, bs int, bad string) []byte {
 		} else {
 			s[n] = byte(p - 1)
 		}
+	case "fill2":
+		if p >= 3 {
+			s[n], s[n+1] = 85, 85
+		} else if p == 1 {
+			s[n] = 2
+		} else {
+			s[n] = byte(p - 1)
+		}
 	}
 	return s
 }
